@@ -1015,7 +1015,7 @@ class ModelReference(Reference, Generic[_RT]):
         for pk, k in zip(key, key[1:]):
             if k.type == KeyTypes.FRAGMENT_REFERENCE and pk.type not in (KeyTypes.BLOB, KeyTypes.FILE):
                 raise AASConstraintViolation(127, f"{k!r} is not preceded by a key of type File or Blob, but {pk!r}")
-            if pk.type == KeyTypes.SUBMODEL_ELEMENT_LIST and not k.value.isnumeric():
+            if pk.type == KeyTypes.SUBMODEL_ELEMENT_LIST and not k.value.isdecimal():
                 raise AASConstraintViolation(128, f"Key {pk!r} references a SubmodelElementList, "
                                                   f"but the value of the succeeding key ({k!r}) is not a non-negative "
                                                   f"integer: {k.value}")
